@@ -55,6 +55,20 @@ func genTemplate(r *rand.Rand, id int, rich bool) corev1.PodTemplateSpec {
 		if r.Intn(4) == 0 {
 			t.Annotations = map[string]string{"note": "x"}
 		}
+		// a template pasted from a running pod: it already carries the controller's own stamps
+		if r.Intn(6) == 0 {
+			if t.Annotations == nil {
+				t.Annotations = map[string]string{}
+			}
+			t.Annotations[edsv1.MD5ExtendedDaemonSetAnnotationKey] = "stale-hash-from-another-pod"
+			if r.Intn(2) == 0 {
+				t.Annotations["cluster-autoscaler.kubernetes.io/daemonset-pod"] = "false"
+			}
+		}
+		if r.Intn(8) == 0 {
+			t.Labels[edsv1.ExtendedDaemonSetReplicaSetNameLabelKey] = "pasted-rs"
+			t.Labels[edsv1.ExtendedDaemonSetNameLabelKey] = "pasted-eds"
+		}
 	}
 	return t
 }
